@@ -31,7 +31,7 @@ META = dict(
     outside="histories are covered through the induction only; > 3 units per annotator in the pre-state (SortedSet's list-of-lists load factor 1000 is never reached)",
     stubs=["Segment.__hash__ = constant (set/dict/SortedSet decide by ==)", "min/max merged as ite"],
     assumptions=["segments of the pre-state longer than SEGMENT_PRECISION", "pre-state units of one annotator pairwise distinct by value"],
-    cfg_budget_s=dict(quick=240, thorough=1700),
+    cfg_budget_s=dict(quick=240, thorough=900),
 )
 
 ALPHA = [None, "a", "b"]
@@ -242,6 +242,11 @@ def harness(cfg, ns):
         ctx.notes["inputs"] = inputs
         obls = [Obl("pre-state-satisfies-invariant", SymBool(invariant(pre)), rz)]
         model_units = {a: list(pre["units"][a]) for a in pre["ann"]}
+        # every public view is read once BEFORE the operation: whatever a view may memoise must not survive the operation
+        _ = (c.num_units, len(c), bool(c), list(c.annotators), list(c.categories), c.bounds, list(c), c.num_annotators,
+             c.max_num_annotations_per_annotator, [list(c[a]) for a in pre["ann"]], [list(c.iter_annotator(a)) for a in pre["ann"]])
+        if c.num_units:
+            _ = (c.avg_num_annotations_per_annotator, c.avg_length_unit)
 
         def post_checks(c2, want_units, want_ann, tag, want_cats=None, bounds=None):
             post = snapshot(c2)
@@ -260,6 +265,15 @@ def harness(cfg, ns):
             o.append(Obl(f"{tag}:annotators-view", list(c2.annotators) == post["ann"], rz))
             o.append(Obl(f"{tag}:bool==has-units", bool(c2) == any(post["units"].values()), rz))
             o.append(Obl(f"{tag}:iteration-order", [(a, tup(u)) for a, u in c2] == [(a, t) for a in post["ann"] for t in post["units"][a]], rz))
+            nu = sum(len(v) for v in post["units"].values())
+            if nu and post["ann"]:
+                o.append(Obl(f"{tag}:avg/max-units-per-annotator", c2.avg_num_annotations_per_annotator == nu / len(post["ann"])
+                             and int(c2.max_num_annotations_per_annotator) == max(len(v) for v in post["units"].values()), rz))
+                tot = 0
+                for v in post["units"].values():
+                    for (st_, en_, _l) in v:
+                        tot = tot + (en_ - st_)
+                o.append(Obl(f"{tag}:avg_length_unit", core.approx(c2.avg_length_unit, tot / nu, tot), rz))
             return o
 
         if op in ("add", "add_zero"):
